@@ -13,7 +13,7 @@
 EXTENDS Universes, TLC, Json
 
 \* ---- universe -------------------------------------------------------------
-R9Names == <<cA, <<97, 47, 98>>, <<97, 126, 98>>, <<126, 49>>, <<48>>, <<49>>, <<>>, <<97, 32, 98>>, <<47>>, <<126>>, <<126, 48>>, <<233>>, <<127>>, <<133, 97>>, <<233, 1>>, <<128512, 233, 10, 97>>, <<93, 46, 91>>, <<99, 91, 48, 93, 46, 91, 49, 93>>, <<91, 42, 93>>, <<97, 91, 63, 98, 93>>, <<36, 46, 105, 91, 42, 93, 46, 105, 100>>>>
+R9Names == <<cA, <<97, 47, 98>>, <<97, 126, 98>>, <<126, 49>>, <<48>>, <<49>>, <<>>, <<97, 32, 98>>, <<47>>, <<126>>, <<126, 48>>, <<233>>, <<127>>, <<133, 97>>, <<233, 1>>, <<128512, 233, 10, 97>>, <<93, 46, 91>>, <<99, 91, 48, 93, 46, 91, 49, 93>>, <<91, 42, 93>>, <<97, 91, 63, 98, 93>>, <<36, 46, 105, 91, 42, 93, 46, 105, 100>>, <<1048576, 97>>, <<1114111>>, <<65536>>, <<34, 120, 34>>>>
 R9NamesT == R9Names \o << <<39>>, <<97, 39, 98>>, <<92>>, <<34>>, <<10>>, <<45, 49>>, <<91, 48, 93>> >>
 R9N == IF Thorough THEN R9NamesT ELSE R9Names
 R9Leaf == <<JInt(1), JStr(cA), JArr(<<JInt(1), JInt(2)>>), JObj(<<cA>>, <<JInt(1)>>)>>
